@@ -24,6 +24,14 @@ def _pools():
               lambda u: ["SET", K, u, "KEEPTTL"], lambda u: ["TTL", K]],
         multi=[lambda u: ["MSET", K, u, K2, u], lambda u: ["MSET", K2, u, K, u], lambda u: ["RENAME", K, K2], lambda u: ["RENAME", K2, K]],
         nolin=[lambda u: ["MGET", K, K2], lambda u: ["MGET", K2, K], lambda u: ["DEL", K, K2], lambda u: ["DEL", K2, K], lambda u: ["EXISTS", K, K2, K]])
+    # deadlines on one key: the options of EXPIRE are conditions on the deadline the key has WHEN THE COMMAND TAKES EFFECT; all
+    # deadlines are far away, nothing expires during a case. Not part of C05's catalogue (families=... selects it for C06).
+    P["deadline"] = dict(
+        setups=[[["SET", K, "v"]], [["SET", K, "v"], ["EXPIRE", K, "1000"]]],
+        cmds=[lambda u: ["EXPIRE", K, "500", "NX"], lambda u: ["EXPIRE", K, "600", "NX"], lambda u: ["EXPIRE", K, "700", "XX"], lambda u: ["EXPIRE", K, "2000", "GT"],
+              lambda u: ["EXPIRE", K, "1500", "GT"], lambda u: ["EXPIRE", K, "300", "LT"], lambda u: ["EXPIRE", K, "5000"], lambda u: ["PERSIST", K],
+              lambda u: ["SET", K, u], lambda u: ["SET", K, u, "KEEPTTL"], lambda u: ["SET", K, u, "EX", "4000"], lambda u: ["DEL", K]],
+        multi=[], nolin=[])
     P["list"] = dict(
         setups=[[], [["RPUSH", K, "s1"]], [["RPUSH", K, "s1", "s2"]], [["RPUSH", K, "s1"], ["RPUSH", K2, "t1"]]],
         cmds=[lambda u: ["LPUSH", K, u], lambda u: ["RPUSH", K, u], lambda u: ["LPOP", K], lambda u: ["RPOP", K], lambda u: ["LREM", K, "0", "s1"],
@@ -69,7 +77,7 @@ def catalogue(which, tier, seed, families=None):
     rnd = random.Random(seed)
     P = _pools()
     cases = []
-    reader = {"string": lambda k: ["GET", k], "list": lambda k: ["LRANGE", k, "0", "-1"], "set": lambda k: ["SMEMBERS", k], "hash": lambda k: ["HGETALL", k],
+    reader = {"deadline": lambda k: ["GET", k], "string": lambda k: ["GET", k], "list": lambda k: ["LRANGE", k, "0", "-1"], "set": lambda k: ["SMEMBERS", k], "hash": lambda k: ["HGETALL", k],
               "zset": lambda k: ["ZRANGE", k, "0", "-1", "WITHSCORES"], "stream": lambda k: ["XRANGE", k, "-", "+"]}
 
     def add(fam, setup, cmds, nolin=False, same_stripe=False):
@@ -81,8 +89,10 @@ def catalogue(which, tier, seed, families=None):
             cs = json.loads(json.dumps(cs).replace('"$B"', '"$S"'))
         cases.append(cs)
 
-    fams = ["stream"] if which == "stream" else list(P)
+    fams = ["stream"] if which == "stream" else [f for f in P if f != "deadline"]
     if families:
+        fams = [f for f in P if f in families] if which != "stream" else fams
+    if False:
         fams = [f for f in fams if f in families]
     ntri = 40 if tier == "quick" else 400
     for fam in fams:
